@@ -462,3 +462,38 @@ def origin_callees(fn, e, through=()):
                     if a.get('k') != 'Closure':
                         todo.extend(origins(fn, a))
     return out
+
+
+def resolve_slots(fn, e, slot=None, depth=0):
+    """Slot-aware provenance: terminals (node, slot) where slot is the tuple slot of the terminal's value that flows
+    into e (None = whole value). Follows locals, tuple destructuring and tuple literals."""
+    if depth > 30:
+        return [(e, slot)]
+    x = strip_refs(e)
+    k = x.get('k')
+    bs = binding_sites(fn)
+    if k in ('Block', 'If', 'Match'):
+        out = []
+        for v in value_exprs(x):
+            if v is not x:
+                out.extend(resolve_slots(fn, v, slot, depth + 1))
+        return out
+    if k == 'Tup' and slot is not None:
+        if slot < len(x['es']):
+            return resolve_slots(fn, x['es'][slot], None, depth + 1)
+        return [(x, slot)]
+    if k == 'Path' and x.get('res') == 'local':
+        b = bs.get(x.get('hid'))
+        if b is None:
+            return [(x, slot)]
+        if b['kind'] in ('let', 'letcond'):
+            init = b['node'].get('init') if b['kind'] == 'let' else b['node'].get('e')
+            if init is None:
+                return [(b['bind'], slot)]
+            here = _slot_of_pat(b['pat'], x['hid'])
+            if here is not None and slot is not None:
+                return [(b['bind'], slot)]
+            return resolve_slots(fn, init, here if here is not None else slot, depth + 1)
+        here = _slot_of_pat(b['pat'], x['hid'])
+        return [(b['bind'], here if here is not None else slot)]
+    return [(x, slot)]
